@@ -505,6 +505,17 @@ class Inliner:
                     return body
                 self.kept_calls.add(h.qname)
                 return None
+        # `if A and helper(): body` (no else)  ==  `if A: if helper(): body` -- makes the call hoistable under its guard
+        if isinstance(s, ast.If) and not s.orelse and isinstance(s.test, ast.BoolOp) and isinstance(s.test.op, ast.And):
+            vals = s.test.values
+            for k in range(1, len(vals)):
+                if self._first_hoistable(r, vals[k]) is not None and self._first_hoistable(r, ast.BoolOp(op=ast.And(), values=vals[:k])) is None:
+                    outer = vals[0] if k == 1 else ast.copy_location(ast.BoolOp(op=ast.And(), values=vals[:k]), s.test)
+                    inner_t = vals[k] if k == len(vals) - 1 else ast.copy_location(ast.BoolOp(op=ast.And(), values=vals[k:]), s.test)
+                    inner = ast.copy_location(ast.If(test=inner_t, body=s.body, orelse=[]), s)
+                    s.test = outer
+                    s.body = [inner]
+                    return None
         # hoistable positions
         holder = None
         if isinstance(s, (ast.Assign, ast.AnnAssign, ast.AugAssign, ast.Return, ast.Expr)):
